@@ -40,7 +40,7 @@ def run(pid, tier, seed, replay=None):
             _judge(ctx, work, [rec])
             ctx.note_case("a", True); ctx.note_case("b", True); ctx.sample({"replayed": row}); ctx.rule = "replay"
             return ctx.finish()
-        base = dict(Classes=CLASSES, Shapes={"scalar", "vector", "matrix"}, Positions={"first", "middle", "last"})
+        base = dict(Classes=CLASSES, Shapes={"scalar", "vector", "matrix", "ragged"}, Positions={"first", "middle", "last"})
         mc = dict(base); mc["FieldNameLookup"] = True
         res = family.model_check(ctx, work, "Validate", mc, ["Rejected"], [], "intended")
         if res.violated:
